@@ -421,11 +421,11 @@ theorem exit_fnd (cfg : Cfg) (h : FND cfg) (s2 : St) (F : Frame) (rest : List Fr
     (hfr : s2.frames = F :: rest) (hov : s2.over = 0) (hen : s2.enabled = true) (htime : s2.filt.time = noTime)
     (hdis : F.disabled = false) (htr : F.trace = false) (ht1 : t1 ≠ 0) :
     (exit cfg s2 t1).out =
-      (if F.norecord || !(decide (t1 - F.start > cfg.threshold) || F.written) then s2.out
+      (if F.norecord || !(durOk cfg (t1 - F.start) cfg.threshold || F.written) then s2.out
        else s2.out ++ (if F.written then [] else pend rest ++ [entryRec F]) ++
               [{ time := t1, type := 1, depth := F.depth, addr := F.addr }]) ∧
     (exit cfg s2 t1).frames =
-      (if !F.norecord && (decide (t1 - F.start > cfg.threshold) || F.written) && !F.written then mark rest
+      (if !F.norecord && (durOk cfg (t1 - F.start) cfg.threshold || F.written) && !F.written then mark rest
        else rest) := by
   have ho : ¬ s2.over > 0 := by omega
   have ht1' : (t1 != 0) = true := by simpa using ht1
@@ -442,20 +442,31 @@ theorem exit_fnd (cfg : Cfg) (h : FND cfg) (s2 : St) (F : Frame) (rest : List Fr
       simp [exit, ho, hfr, hcn, hn, hw, exitFilterRecord, h.fast, htime, hen, h.caller, htr, recordTrace, Frame.skip,
         hdis, ht1', exitRec]
     | false =>
-      by_cases hd : t1 - F.start > cfg.threshold
+      by_cases hd : durOk cfg (t1 - F.start) cfg.threshold = true
       · simp [exit, ho, hfr, hcn, hn, hw, exitFilterRecord, h.fast, htime, hen, h.caller, htr, recordTrace, Frame.skip,
           hdis, ht1', exitRec, hd, pend, mark, entryRec]
       · simp [exit, ho, hfr, hcn, hn, hw, exitFilterRecord, h.fast, htime, hen, h.caller, htr, hd]
 
 /-! ### the recorded stream of a forest -/
 
+/-- the record-time duration test is the specification's, strict before the repair of S4 -/
+theorem keepDur_durOk (cfg : Cfg) (dur thr : Nat) : keepDur (!cfg.s4fixed) dur thr = durOk cfg dur thr := by
+  unfold keepDur durOk
+  cases cfg.s4fixed <;> simp
+
+theorem durOk_mono (cfg : Cfg) (m n thr : Nat) (hmn : m ≤ n) (h : durOk cfg n thr = false) : durOk cfg m thr = false := by
+  cases hs : cfg.s4fixed
+  · simp only [durOk, hs, Bool.false_eq_true, ↓reduceIte, decide_eq_false_iff_not] at h ⊢; omega
+  · simp only [durOk, hs, ↓reduceIte, decide_eq_false_iff_not] at h ⊢; omega
+
 def Call.dur : Call → Nat
   | .node _ t0 t1 _ => t1 - t0
 
 mutual
-  /-- every call takes time on the clock and runs no longer than its caller -/
+  /-- clock readings are ordered, the exit time is not the "not yet returned" sentinel 0, and no call
+      runs longer than its caller -/
   def Call.nestOK : Call → Prop
-    | .node _ t0 t1 kids => t0 < t1 ∧ Calls.allDurLe (t1 - t0) kids
+    | .node _ t0 t1 kids => t0 ≤ t1 ∧ t1 ≠ 0 ∧ Calls.allDurLe (t1 - t0) kids
   def Calls.allDurLe (n : Nat) : Calls → Prop
     | .nil => True
     | .cons x rest => Call.dur x ≤ n ∧ Call.nestOK x ∧ Calls.allDurLe n rest
@@ -468,31 +479,31 @@ theorem allDurLe_mono (n m : Nat) (hnm : n ≤ m) : ∀ (xs : Calls), Calls.allD
     exact ⟨by omega, h.2.1, allDurLe_mono n m hnm rest h.2.2⟩
 
 theorem pruneCall_fnd (cfg : Cfg) (h : FND cfg) (thr f t0 t1 : Nat) (kids : Calls) :
-    pruneCall (RCfg.ofRecord cfg) true thr (.node f t0 t1 kids) =
-      (if decide (t1 - t0 > thr) || !Calls.isNil (pruneCalls (RCfg.ofRecord cfg) true thr kids)
-       then some (.node f t0 t1 (pruneCalls (RCfg.ofRecord cfg) true thr kids)) else none) := by
+    pruneCall (RCfg.ofRecord cfg) (!cfg.s4fixed) thr (.node f t0 t1 kids) =
+      (if durOk cfg (t1 - t0) thr || !Calls.isNil (pruneCalls (RCfg.ofRecord cfg) (!cfg.s4fixed) thr kids)
+       then some (.node f t0 t1 (pruneCalls (RCfg.ofRecord cfg) (!cfg.s4fixed) thr kids)) else none) := by
   have htr : cfg.trig f = { filter := (cfg.trig f).filter } := h.trig f
   unfold pruneCall RCfg.ofRecord
   dsimp only
   rw [htr]
-  simp [keepDur, h.caller]
+  simp [keepDur_durOk, h.caller]
 
 mutual
-theorem prune_short_call (cfg : Cfg) (h : FND cfg) (thr : Nat) : ∀ (x : Call), Call.dur x ≤ thr → Call.nestOK x →
-    pruneCall (RCfg.ofRecord cfg) true thr x = none
+theorem prune_short_call (cfg : Cfg) (h : FND cfg) (thr : Nat) : ∀ (x : Call), durOk cfg (Call.dur x) thr = false → Call.nestOK x →
+    pruneCall (RCfg.ofRecord cfg) (!cfg.s4fixed) thr x = none
   | .node f t0 t1 kids, hd, hn => by
     simp only [Call.dur] at hd
     simp only [Call.nestOK] at hn
-    have hk := prune_short_calls cfg h thr kids (allDurLe_mono _ _ hd kids hn.2)
+    have hk := prune_short_calls cfg h thr kids (t1 - t0) hd hn.2.2
     rw [pruneCall_fnd cfg h, hk]
-    have : ¬ (t1 - t0 > thr) := by omega
-    simp [this, Calls.isNil]
-theorem prune_short_calls (cfg : Cfg) (h : FND cfg) (thr : Nat) : ∀ (xs : Calls), Calls.allDurLe thr xs →
-    pruneCalls (RCfg.ofRecord cfg) true thr xs = .nil
-  | .nil, _ => rfl
-  | .cons x rest, hn => by
+    simp [hd, Calls.isNil]
+theorem prune_short_calls (cfg : Cfg) (h : FND cfg) (thr : Nat) : ∀ (xs : Calls) (n : Nat),
+    durOk cfg n thr = false → Calls.allDurLe n xs → pruneCalls (RCfg.ofRecord cfg) (!cfg.s4fixed) thr xs = .nil
+  | .nil, _, _, _ => rfl
+  | .cons x rest, n, hs, hn => by
     simp only [Calls.allDurLe] at hn
-    simp only [pruneCalls, prune_short_call cfg h thr x hn.1 hn.2.1, prune_short_calls cfg h thr rest hn.2.2]
+    simp only [pruneCalls, prune_short_call cfg h thr x (durOk_mono cfg _ _ thr hn.1 hs) hn.2.1,
+      prune_short_calls cfg h thr rest n hs hn.2.2]
 end
 
 theorem rrel_of_core (cfg : Cfg) (s s' : St) (E : Env) (d : Nat) (hc : core s' = core s) (hen : s'.enabled = true)
@@ -531,31 +542,30 @@ theorem isNil_eq_nil (xs : Calls) (h : Calls.isNil xs = true) : xs = .nil := by
 
 /-- what one call adds to the recorded stream, given what its callees added -/
 theorem rec_node (cfg : Cfg) (h : FND cfg) (k : Kind) (f t0 t1 : Nat) (kids : Calls) (s : St) (E : Env) (d : Nat)
-    (hr : RRel cfg s E d) (hlen : s.frames.length < cfg.maxStack) (ht : t0 < t1)
-    (hshort : ¬ (t1 - t0 > cfg.threshold) →
-      pruneCalls (RCfg.ofRecord cfg) true cfg.threshold kids = .nil)
+    (hr : RRel cfg s E d) (hlen : s.frames.length < cfg.maxStack) (ht1 : t1 ≠ 0)
+    (hshort : durOk cfg (t1 - t0) cfg.threshold = false →
+      pruneCalls (RCfg.ofRecord cfg) (!cfg.s4fixed) cfg.threshold kids = .nil)
     (ih : ∀ (s1 : St) (E1 : Env) (d1 : Nat), RRel cfg s1 E1 d1 → s1.frames.length ≤ s.frames.length + 1 →
       (runCalls cfg k s1 kids).out = s1.out ++
-          (if specCalls (RCfg.ofRecord cfg) E1 d1 (pruneCalls (RCfg.ofRecord cfg) true cfg.threshold kids) = [] then []
+          (if specCalls (RCfg.ofRecord cfg) E1 d1 (pruneCalls (RCfg.ofRecord cfg) (!cfg.s4fixed) cfg.threshold kids) = [] then []
            else pend s1.frames) ++
-          specCalls (RCfg.ofRecord cfg) E1 d1 (pruneCalls (RCfg.ofRecord cfg) true cfg.threshold kids) ∧
+          specCalls (RCfg.ofRecord cfg) E1 d1 (pruneCalls (RCfg.ofRecord cfg) (!cfg.s4fixed) cfg.threshold kids) ∧
       (runCalls cfg k s1 kids).frames =
-          (if specCalls (RCfg.ofRecord cfg) E1 d1 (pruneCalls (RCfg.ofRecord cfg) true cfg.threshold kids) = []
+          (if specCalls (RCfg.ofRecord cfg) E1 d1 (pruneCalls (RCfg.ofRecord cfg) (!cfg.s4fixed) cfg.threshold kids) = []
            then s1.frames else mark s1.frames) ∧
       RRel cfg (runCalls cfg k s1 kids) E1 d1) :
     (runCall cfg k s (.node f t0 t1 kids)).out = s.out ++
-        (if evsOf (RCfg.ofRecord cfg) E d (pruneCall (RCfg.ofRecord cfg) true cfg.threshold (.node f t0 t1 kids)) = []
+        (if evsOf (RCfg.ofRecord cfg) E d (pruneCall (RCfg.ofRecord cfg) (!cfg.s4fixed) cfg.threshold (.node f t0 t1 kids)) = []
          then [] else pend s.frames) ++
-        evsOf (RCfg.ofRecord cfg) E d (pruneCall (RCfg.ofRecord cfg) true cfg.threshold (.node f t0 t1 kids)) ∧
+        evsOf (RCfg.ofRecord cfg) E d (pruneCall (RCfg.ofRecord cfg) (!cfg.s4fixed) cfg.threshold (.node f t0 t1 kids)) ∧
     (runCall cfg k s (.node f t0 t1 kids)).frames =
-        (if evsOf (RCfg.ofRecord cfg) E d (pruneCall (RCfg.ofRecord cfg) true cfg.threshold (.node f t0 t1 kids)) = []
+        (if evsOf (RCfg.ofRecord cfg) E d (pruneCall (RCfg.ofRecord cfg) (!cfg.s4fixed) cfg.threshold (.node f t0 t1 kids)) = []
          then s.frames else mark s.frames) ∧
     RRel cfg (runCall cfg k s (.node f t0 t1 kids)) E d := by
   obtain ⟨eo, erel, eshape⟩ := entry_fnd cfg h k s E d f t0 hr hlen
   have hcore := core_runCall cfg h k (.node f t0 t1 kids) s hr.over
-  have ht1 : t1 ≠ 0 := by omega
   rw [pruneCall_fnd cfg h]
-  generalize hks : pruneCalls (RCfg.ofRecord cfg) true cfg.threshold kids = ks at ih hshort
+  generalize hks : pruneCalls (RCfg.ofRecord cfg) (!cfg.s4fixed) cfg.threshold kids = ks at ih hshort
   generalize hv : visit (RCfg.ofRecord cfg) E f = v at eo erel eshape
   obtain ⟨vis, Ek⟩ := v
   simp only at erel eshape
@@ -565,14 +575,14 @@ theorem rec_node (cfg : Cfg) (h : FND cfg) (k : Kind) (f t0 t1 : Nat) (kids : Ca
        else specCalls (RCfg.ofRecord cfg) Ek d ks) := by
     simp only [specCall, hv]
   have hev : evsOf (RCfg.ofRecord cfg) E d
-        (if (decide (t1 - t0 > cfg.threshold) || !Calls.isNil ks) = true then some (.node f t0 t1 ks) else none) =
+        (if (durOk cfg (t1 - t0) cfg.threshold || !Calls.isNil ks) = true then some (.node f t0 t1 ks) else none) =
       (if vis then
-         (if (decide (t1 - t0 > cfg.threshold) || !Calls.isNil ks) = true then
+         (if (durOk cfg (t1 - t0) cfg.threshold || !Calls.isNil ks) = true then
             [{ time := t0, type := 0, depth := d, addr := f }] ++ specCalls (RCfg.ofRecord cfg) Ek (d + 1) ks ++
               [{ time := t1, type := 1, depth := d, addr := f }]
           else [])
        else specCalls (RCfg.ofRecord cfg) Ek d ks) := by
-    by_cases hkeep : (decide (t1 - t0 > cfg.threshold) || !Calls.isNil ks) = true
+    by_cases hkeep : (durOk cfg (t1 - t0) cfg.threshold || !Calls.isNil ks) = true
     · simp only [hkeep, ↓reduceIte, evsOf, hspecN]
     · simp only [hkeep, Bool.false_eq_true, ↓reduceIte, evsOf]
       have hn : Calls.isNil ks = true := by
@@ -631,12 +641,13 @@ theorem rec_node (cfg : Cfg) (h : FND cfg) (k : Kind) (f t0 t1 : Nat) (kids : Ca
         have hx := exit_fnd cfg h s2 F s.frames t1 (by rw [kf, hfr]) krel.over krel.en krel.time hdis htrc ht1
         simp only [hnr, hw, Bool.false_or, Bool.or_false, Bool.not_false, Bool.true_and, Bool.and_true,
           Bool.false_eq_true, ↓reduceIte, hst] at hx
-        by_cases hdur : t1 - t0 > cfg.threshold
+        by_cases hdur : durOk cfg (t1 - t0) cfg.threshold = true
         · simp only [hdur, decide_true, Bool.not_true, Bool.false_eq_true, ↓reduceIte, Bool.true_or] at hx ⊢
           refine ⟨?_, ?_, hrel⟩
           · rw [hx.1, ko, eo, hER, hdep, haddr]; simp [List.append_assoc]
           · rw [hx.2]; simp
-        · have hkn := hshort hdur
+        · have hdur : durOk cfg (t1 - t0) cfg.threshold = false := by simpa using hdur
+          have hkn := hshort hdur
           simp only [hdur, decide_false, Bool.not_false, ↓reduceIte, Bool.false_eq_true, hkn, Calls.isNil,
             Bool.not_true, Bool.or_self, List.append_nil] at hx ⊢
           exact ⟨by rw [hx.1, ko, eo], hx.2, hrel⟩
@@ -662,11 +673,11 @@ theorem rec_node (cfg : Cfg) (h : FND cfg) (k : Kind) (f t0 t1 : Nat) (kids : Ca
       exact rrel_of_core cfg s _ E d hcore (by rw [hrun]; exact krel.en) hr
     exact ⟨by rw [ko, eo, hfr], by rw [kf, hfr], hrel⟩
 
-theorem specCalls_pruneCalls_cons (R : RCfg) (thr : Nat) (E : Env) (d : Nat) (x : Call) (rest : Calls) :
-    specCalls R E d (pruneCalls R true thr (.cons x rest)) =
-      evsOf R E d (pruneCall R true thr x) ++ specCalls R E d (pruneCalls R true thr rest) := by
+theorem specCalls_pruneCalls_cons (R : RCfg) (st : Bool) (thr : Nat) (E : Env) (d : Nat) (x : Call) (rest : Calls) :
+    specCalls R E d (pruneCalls R st thr (.cons x rest)) =
+      evsOf R E d (pruneCall R st thr x) ++ specCalls R E d (pruneCalls R st thr rest) := by
   simp only [pruneCalls]
-  cases pruneCall R true thr x with
+  cases pruneCall R st thr x with
   | none => simp [evsOf]
   | some x' => simp [evsOf, specCalls]
 
@@ -674,27 +685,27 @@ mutual
 theorem rec_call (cfg : Cfg) (h : FND cfg) (k : Kind) : ∀ (x : Call) (s : St) (E : Env) (d : Nat),
     RRel cfg s E d → s.frames.length + x.height ≤ cfg.maxStack → Call.nestOK x →
     (runCall cfg k s x).out = s.out ++
-        (if evsOf (RCfg.ofRecord cfg) E d (pruneCall (RCfg.ofRecord cfg) true cfg.threshold x) = [] then []
+        (if evsOf (RCfg.ofRecord cfg) E d (pruneCall (RCfg.ofRecord cfg) (!cfg.s4fixed) cfg.threshold x) = [] then []
          else pend s.frames) ++
-        evsOf (RCfg.ofRecord cfg) E d (pruneCall (RCfg.ofRecord cfg) true cfg.threshold x) ∧
+        evsOf (RCfg.ofRecord cfg) E d (pruneCall (RCfg.ofRecord cfg) (!cfg.s4fixed) cfg.threshold x) ∧
     (runCall cfg k s x).frames =
-        (if evsOf (RCfg.ofRecord cfg) E d (pruneCall (RCfg.ofRecord cfg) true cfg.threshold x) = [] then s.frames
+        (if evsOf (RCfg.ofRecord cfg) E d (pruneCall (RCfg.ofRecord cfg) (!cfg.s4fixed) cfg.threshold x) = [] then s.frames
          else mark s.frames) ∧
     RRel cfg (runCall cfg k s x) E d
   | .node f t0 t1 kids, s, E, d, hr, hh, hn => by
     simp only [Call.height] at hh
     simp only [Call.nestOK] at hn
-    exact rec_node cfg h k f t0 t1 kids s E d hr (by omega) hn.1
-      (fun hd => prune_short_calls cfg h cfg.threshold kids (allDurLe_mono _ _ (by omega) kids hn.2))
-      (fun s1 E1 d1 hr1 hl => rec_calls cfg h k kids s1 E1 d1 (t1 - t0) hr1 (by omega) hn.2)
+    exact rec_node cfg h k f t0 t1 kids s E d hr (by omega) hn.2.1
+      (fun hd => prune_short_calls cfg h cfg.threshold kids (t1 - t0) hd hn.2.2)
+      (fun s1 E1 d1 hr1 hl => rec_calls cfg h k kids s1 E1 d1 (t1 - t0) hr1 (by omega) hn.2.2)
 theorem rec_calls (cfg : Cfg) (h : FND cfg) (k : Kind) : ∀ (xs : Calls) (s : St) (E : Env) (d n : Nat),
     RRel cfg s E d → s.frames.length + xs.height ≤ cfg.maxStack → Calls.allDurLe n xs →
     (runCalls cfg k s xs).out = s.out ++
-        (if specCalls (RCfg.ofRecord cfg) E d (pruneCalls (RCfg.ofRecord cfg) true cfg.threshold xs) = [] then []
+        (if specCalls (RCfg.ofRecord cfg) E d (pruneCalls (RCfg.ofRecord cfg) (!cfg.s4fixed) cfg.threshold xs) = [] then []
          else pend s.frames) ++
-        specCalls (RCfg.ofRecord cfg) E d (pruneCalls (RCfg.ofRecord cfg) true cfg.threshold xs) ∧
+        specCalls (RCfg.ofRecord cfg) E d (pruneCalls (RCfg.ofRecord cfg) (!cfg.s4fixed) cfg.threshold xs) ∧
     (runCalls cfg k s xs).frames =
-        (if specCalls (RCfg.ofRecord cfg) E d (pruneCalls (RCfg.ofRecord cfg) true cfg.threshold xs) = []
+        (if specCalls (RCfg.ofRecord cfg) E d (pruneCalls (RCfg.ofRecord cfg) (!cfg.s4fixed) cfg.threshold xs) = []
          then s.frames else mark s.frames) ∧
     RRel cfg (runCalls cfg k s xs) E d
   | .nil, s, E, d, n, hr, _, _ => by
@@ -712,8 +723,8 @@ theorem rec_calls (cfg : Cfg) (h : FND cfg) (k : Kind) : ∀ (xs : Calls) (s : S
     obtain ⟨ro, rf, rr⟩ := rec_calls cfg h k rest (runCall cfg k s x) E d n xr (by rw [hlen]; omega) hn.2.2
     simp only [runCalls]
     rw [specCalls_pruneCalls_cons]
-    generalize evsOf (RCfg.ofRecord cfg) E d (pruneCall (RCfg.ofRecord cfg) true cfg.threshold x) = ex at xo xf
-    generalize specCalls (RCfg.ofRecord cfg) E d (pruneCalls (RCfg.ofRecord cfg) true cfg.threshold rest) = er
+    generalize evsOf (RCfg.ofRecord cfg) E d (pruneCall (RCfg.ofRecord cfg) (!cfg.s4fixed) cfg.threshold x) = ex at xo xf
+    generalize specCalls (RCfg.ofRecord cfg) E d (pruneCalls (RCfg.ofRecord cfg) (!cfg.s4fixed) cfg.threshold rest) = er
       at ro rf
     refine ⟨?_, ?_, rr⟩
     · rw [ro, xo, xf]
@@ -734,7 +745,7 @@ end
     documented selection (with the record-time comparison `>` for -t) -/
 theorem record_out (cfg : Cfg) (h : FND cfg) (k : Kind) (cs : Calls) (n : Nat)
     (hh : cs.height ≤ cfg.maxStack) (hn : Calls.allDurLe n cs) :
-    (runCalls cfg k (St.init cfg) cs).out = spec (RCfg.ofRecord cfg) true cs := by
+    (runCalls cfg k (St.init cfg) cs).out = spec (RCfg.ofRecord cfg) (!cfg.s4fixed) cs := by
   have hr : RRel cfg (St.init cfg) (Env.init (RCfg.ofRecord cfg)) 0 := by
     constructor <;> simp [St.init, Env.init, RCfg.ofRecord, h.minSize, h.en]
   obtain ⟨o, _, _⟩ := rec_calls cfg h k cs (St.init cfg) (Env.init (RCfg.ofRecord cfg)) 0 n hr
